@@ -5,7 +5,35 @@ import importlib
 
 HERE = os.path.dirname(os.path.dirname(os.path.abspath(__file__)))
 
-TEXT = {}
+TECH = {
+    "C01": "runtime monitoring: generated valid programs -> parse / print / re-parse oracle on the real parser (metamorphic fixpoint)",
+    "C02": "runtime monitoring: reference-model oracle (token stream known by construction vs independent lexer of the output) + reader-item conservation monitor + string_replace_map losslessness monitor",
+    "C03": "runtime monitoring: bounded-exhaustive + random expression workloads, reference-model oracle (grouping known from the grammar derivation)",
+    "C04": "runtime monitoring: metamorphic oracle over enumerated and random free-form layouts of the same statements",
+    "C05": "runtime monitoring: metamorphic oracle fixed-form rendering vs free-form rendering; detector observed at the reader",
+    "C06": "runtime monitoring: mutation/random/byte-level hostile inputs, exception-and-termination monitor at the API boundary with a logical step budget (constructor-call counter)",
+    "C07": "fault enumeration under runtime monitoring: every statement position replaced by garbage, error location oracle",
+    "C08": "fault enumeration under runtime monitoring: every single structural mutation of listed classes, accept/reject oracle + reader-item conservation monitor",
+    "C09": "runtime monitoring of histories: exhaustive short histories + random long ones in one live process, compared with fresh-process references; scope/table invariants checked after every failing parse",
+    "C10": "runtime monitoring: structural invariant checker (own traversal) on every tree produced",
+    "C11": "runtime monitoring: reference-model oracle (inserted comments known by construction) over tree order, regenerated text and reader-item conservation",
+    "C12": "runtime monitoring: reference-model oracle on reader items + push-back trace checker (random read-ahead walks; the parser as consumer under the stream monitor)",
+    "C13": "runtime monitoring: metamorphic oracle (include split vs original) with real files, include-path order and unresolved-include cases, stream monitor across include boundaries",
+    "C14": "runtime monitoring: metamorphic oracle (program with inserted preprocessor lines vs original) + payload comparison + conservation",
+    "C15": "runtime monitoring: metamorphic oracle (sentinel-hidden statements enabled / disabled vs original / original minus S)",
+    "C16": "runtime monitoring: reference-model oracle (scope tree and shadowing known by construction) on SYMBOL_TABLES and node classes, scope-event monitor",
+    "C17": "runtime monitoring: differential oracle f2003 vs f2008 parser on generated F2003 programs and on spliced F2008-only constructs",
+    "C18": "runtime monitoring: deepcopy / pickle round trip with structural, identity and mutation-isolation oracles",
+    "C19": "runtime monitoring: fparser1 parse / print / re-parse oracle with structure (walk) and statement-text comparison",
+    "C20": "runtime monitoring: deterministic step counters (constructor calls via wrapper, python calls via sys.monitoring) over size-indexed input families, growth-ratio oracle",
+}
+LEVEL_TEXT = {
+    "exploration": "held on the executions observed: the real parser/reader runs on generated, hostile workloads and a deterministic oracle or "
+                   "monitor decides every execution; no claim beyond the cases explored - counts, tallies and samples are in the evidence file. "
+                   "Sub-spaces that are enumerated completely are marked exhaustive there.",
+    "fault_enumeration": "for every generated program the listed fault class is enumerated exhaustively (every statement position / every "
+                         "structural mutation), the real parser runs on each faulty input and the oracle decides; programs themselves are sampled.",
+}
 
 
 def main():
@@ -27,13 +55,11 @@ def main():
             "engine": "vf",
             "level_claimed": {
                 "category": mod.LEVEL,
-                "text": getattr(mod, "LEVEL_TEXT", "held on the executions observed: the real parser/reader is run on generated "
-                                "workloads and a deterministic oracle/monitor decides every execution; no claim beyond "
-                                "the cases explored (counts in the evidence file)"),
+                "text": getattr(mod, "LEVEL_TEXT", LEVEL_TEXT[mod.LEVEL]),
                 "design_ref": "DESIGN.md section 7 (%s)" % pid,
             },
             "level_note": "; ".join(getattr(mod, "ASSUMPTIONS", [])) or "generator validity",
-            "technique": getattr(mod, "TECHNIQUE", "runtime monitoring: generated workload + oracle over observed executions"),
+            "technique": getattr(mod, "TECHNIQUE", TECH[pid]),
         })
     m = {
         "version": 1,
